@@ -26,6 +26,7 @@ import z3
 from .core import ctx, OutOfSubset, SInt, SReal
 
 NAN = z3.Real("NaN")
+INF = z3.Real("Inf")          # +infinity: only stored into tensors and inverted (1/inf = 0)
 
 
 def _rv(v):
@@ -40,7 +41,9 @@ def _rv(v):
         if math.isnan(v):
             return NAN
         if math.isinf(v):
-            raise OutOfSubset("infinite constant in the ARR domain")
+            if v > 0:
+                return INF
+            raise OutOfSubset("negative infinite constant in the ARR domain")
         return z3.RealVal(repr(v))
     if isinstance(v, SInt):
         return v.e
@@ -327,7 +330,22 @@ class Tensor(object):
     def __mod__(self, o): return Tensor(_mod(self.a, self._o(o)), self._res_dtype(o))
     def __neg__(self): return self._w(_ew(lambda a: -a, 1)(self.a))
 
+    def conj(self):
+        return self          # real entries
+
+    def __matmul__(self, o):
+        return matmul(self, o)
+
+    def pow(self, p):
+        return self.__pow__(p)
+
     def __pow__(self, p):
+        if p == -1:
+            def inv(a):
+                if z3.eq(a, INF):
+                    return z3.RealVal(0)
+                return 1 / _to_real(a)
+            return Tensor(_ew(inv, 1)(self.a), float64)
         if not isinstance(p, int) or p < 0:
             raise OutOfSubset("power %r" % (p,))
         r = Tensor(_obj(np.ones(self.shape).tolist()) if self.a.ndim else _arr(1.0))
